@@ -14,10 +14,24 @@ import (
 var c18T = TypeD{Name: "t",
 	Attrs: []AttrD{{"s", Kind{j.AttrTypeString, false}}, {"y", Kind{j.AttrTypeBytes, false}}, {"py", Kind{j.AttrTypeBytes, true}},
 		{"ps", Kind{j.AttrTypeString, true}}, {"pi", Kind{j.AttrTypeInt, true}}, {"w", Kind{j.AttrTypeTime, false}}},
-	Rels: []RelD{{"one", true, "u", ""}, {"many", false, "u", ""}}}
+	Rels: []RelD{{"one", true, "u", ""}, {"many", false, "u", ""}, {"single", false, "u", ""}}}
 
-func c18Source(soft bool) j.Resource {
-	r := c18T.NewRes(soft)
+// c18Shapes: the full type, a type without relationships, a type without attributes
+var c18Shapes = []string{"full", "attrs-only", "rels-only"}
+
+func c18TypeD(shape string) TypeD {
+	d := c18T
+	switch shape {
+	case "attrs-only":
+		d.Rels = nil
+	case "rels-only":
+		d.Attrs = nil
+	}
+	return d
+}
+
+func c18Source(soft bool, shape string) j.Resource {
+	r := c18TypeD(shape).NewRes(soft)
 	r.Set("id", "src")
 	r.Set("s", "v")
 	r.Set("y", []byte{3, 1, 2})
@@ -28,6 +42,7 @@ func c18Source(soft bool) j.Resource {
 	r.Set("w", TimeAlph[4])
 	r.Set("one", "x")
 	r.Set("many", []string{"c", "a", "b"})
+	r.Set("single", []string{"only"})
 	return r
 }
 
@@ -70,6 +85,11 @@ func c18Muts() []c18Mut {
 				sr.AddAttr(j.Attr{Name: "extra", Type: j.AttrTypeBool})
 			}
 		}},
+		{"type.AddRel(extrarel)", func(r j.Resource) {
+			if sr, ok := r.(*j.SoftResource); ok {
+				sr.AddRel(j.Rel{FromType: "t", FromName: "extrarel", ToType: "u"})
+			}
+		}},
 		{"type.RemoveField(s)", func(r j.Resource) {
 			if sr, ok := r.(*j.SoftResource); ok {
 				sr.RemoveField("s")
@@ -81,6 +101,9 @@ func c18Muts() []c18Mut {
 			}
 		}},
 		{"MarshalResource(all fields, all data)", func(r j.Resource) {
+			if _, ok := r.Get("id").(string); !ok {
+				return
+			}
 			t := r.GetType()
 			_ = j.MarshalResource(r, "", FieldNames(t), map[string][]string{t.Name: RelNames(t)})
 		}},
@@ -96,6 +119,11 @@ func c18Muts() []c18Mut {
 		}},
 		{"Get(many)[0] = \"MUT\"", func(r j.Resource) {
 			if l, ok := r.Get("many").([]string); ok && len(l) > 0 {
+				l[0] = "MUT"
+			}
+		}},
+		{"Get(single)[0] = \"MUT\"", func(r j.Resource) {
+			if l, ok := r.Get("single").([]string); ok && len(l) > 0 {
 				l[0] = "MUT"
 			}
 		}},
@@ -115,9 +143,9 @@ type c18Sys struct {
 	initErr string
 }
 
-func c18New(soft bool, how string) *c18Sys {
-	y := &c18Sys{how: how, muts: c18Muts()}
-	y.src = c18Source(soft)
+func c18New(soft bool, how, shape string) *c18Sys {
+	y := &c18Sys{how: how + "/" + shape, muts: c18Muts()}
+	y.src = c18Source(soft, shape)
 	if p := Try(func() {
 		c := y.src.(j.Copier)
 		if how == "Copy" {
@@ -164,14 +192,14 @@ func (y *c18Sys) Apply(op int) (fails []mc.Violation, fatal bool) {
 	return
 }
 
-func c18BFS(c *Ctx, soft bool, how string) *mc.BFS {
+func c18BFS(c *Ctx, soft bool, how, shape string) *mc.BFS {
 	depth := 3
 	if Thorough() {
 		depth = 4
 	}
 	muts := c18Muts()
 	return &mc.BFS{
-		Name: fmt.Sprintf("C18/%s-%s", implName(soft), how), NOps: 2 * len(muts), MaxDepth: depth, Workers: c.Workers, R: c.R,
+		Name: fmt.Sprintf("C18/%s-%s-%s", implName(soft), how, shape), NOps: 2 * len(muts), MaxDepth: depth, Workers: c.Workers, R: c.R,
 		OpName: func(i int) string {
 			side := "source: "
 			if i >= len(muts) {
@@ -179,7 +207,7 @@ func c18BFS(c *Ctx, soft bool, how string) *mc.BFS {
 			}
 			return side + muts[i%len(muts)].name
 		},
-		New: func() mc.System { return c18New(soft, how) },
+		New: func() mc.System { return c18New(soft, how, shape) },
 	}
 }
 
@@ -187,9 +215,13 @@ func c18BFS(c *Ctx, soft bool, how string) *mc.BFS {
 func c18Initial(x *mc.Exec) {
 	soft := x.Choose(2, "impl") == 0
 	how := []string{"Copy", "New"}[x.Choose(2, "derivation")]
-	y := c18New(soft, how)
+	shape := "full"
+	if soft {
+		shape = c18Shapes[x.Choose(len(c18Shapes), "shape")]
+	}
+	y := c18New(soft, how, shape)
 	x.R.Add("transitions", 1)
-	x.R.Mark("nontrivial", mc.Hash(soft, how))
+	x.R.Mark("nontrivial", mc.Hash(soft, how, shape))
 	sig := fmt.Sprintf("C18:%s:%s:", implName(soft), how)
 	if y.initErr != "" {
 		x.Fail(sig+"derive-panic", "%s.%s() panicked: %s", implName(soft), how, y.initErr)
@@ -203,7 +235,7 @@ func c18Initial(x *mc.Exec) {
 			x.Fail(sig+"copy-fields", "%s Copy(): fields %v, source has %v", implName(soft), got, want)
 		}
 	} else {
-		z := c18T.NewRes(soft)
+		z := c18TypeD(shape).NewRes(soft)
 		if d := CompareRes(z, y.der, nil); d != nil {
 			x.Fail(sig+"new-not-zero:"+d.What, "%s New(): %s", implName(soft), d.Msg)
 		}
@@ -256,9 +288,9 @@ func (y *c18TypeSys) Apply(op int) (fails []mc.Violation, fatal bool) {
 	return
 }
 
-func c18TypeBFS(c *Ctx) *mc.BFS {
+func c18TypeBFS(c *Ctx, shape string) *mc.BFS {
 	return &mc.BFS{
-		Name: "C18/type-copy", NOps: 2 * len(c18TypeOps), MaxDepth: 4, Workers: c.Workers, R: c.R,
+		Name: "C18/type-copy-" + shape, NOps: 2 * len(c18TypeOps), MaxDepth: 4, Workers: c.Workers, R: c.R,
 		OpName: func(i int) string {
 			if i >= len(c18TypeOps) {
 				return "copy: " + c18TypeOps[i%len(c18TypeOps)]
@@ -266,7 +298,7 @@ func c18TypeBFS(c *Ctx) *mc.BFS {
 			return "source: " + c18TypeOps[i]
 		},
 		New: func() mc.System {
-			src := c18T.SoftType()
+			src := c18TypeD(shape).SoftType()
 			y := &c18TypeSys{src: src, cpy: src.Copy()}
 			if renderType(y.src) != renderType(y.cpy) {
 				panic("Type.Copy differs from its source: " + renderType(y.cpy))
@@ -280,25 +312,37 @@ func init() {
 	var hs []Harness
 	for _, soft := range []bool{true, false} {
 		for _, how := range []string{"Copy", "New"} {
-			soft, how := soft, how
-			hs = append(hs, Harness{
-				Name: fmt.Sprintf("C18/%s-%s", implName(soft), how),
-				Custom: func(c *Ctx) {
-					if !c18BFS(c, soft, how).Explore() {
-						c.R.Cap("C18 incomplete")
-					}
-				},
-				ReplayCustom: func(c *Ctx, ch []int) []mc.Violation { v, _ := c18BFS(c, soft, how).ReplayHistory(ch); return v },
-			})
+			for _, shape := range c18Shapes {
+				if !soft && shape != "full" {
+					continue
+				}
+				soft, how, shape := soft, how, shape
+				hs = append(hs, Harness{
+					Name: fmt.Sprintf("C18/%s-%s-%s", implName(soft), how, shape),
+					Custom: func(c *Ctx) {
+						if !c18BFS(c, soft, how, shape).Explore() {
+							c.R.Cap("C18 incomplete")
+						}
+					},
+					ReplayCustom: func(c *Ctx, ch []int) []mc.Violation {
+						v, _ := c18BFS(c, soft, how, shape).ReplayHistory(ch)
+						return v
+					},
+				})
+			}
 		}
 	}
-	hs = append(hs, Harness{Name: "C18/type-copy",
-		Custom:       func(c *Ctx) { c18TypeBFS(c).Explore(); c.R.Sets["nontrivial"] = c.R.Sets["states"] },
-		ReplayCustom: func(c *Ctx, ch []int) []mc.Violation { v, _ := c18TypeBFS(c).ReplayHistory(ch); return v },
-	}, Harness{Name: "C18/initial", Body: c18Initial})
+	for _, shape := range c18Shapes {
+		shape := shape
+		hs = append(hs, Harness{Name: "C18/type-copy-" + shape,
+			Custom:       func(c *Ctx) { c18TypeBFS(c, shape).Explore(); c.R.Sets["nontrivial"] = c.R.Sets["states"] },
+			ReplayCustom: func(c *Ctx, ch []int) []mc.Violation { v, _ := c18TypeBFS(c, shape).ReplayHistory(ch); return v },
+		})
+	}
+	hs = append(hs, Harness{Name: "C18/initial", Body: c18Initial})
 	Register(&Prop{
 		ID: "C18",
-		Rule: "Engine B: for {soft, wrapped} x {Copy(), New()} a source resource holding a byte string, a pointer to a byte string, nullable pointers, a time and an unsorted 3-element to-many list is derived, then ALL histories (depth <= 3 quick / 4 thorough) of 13 mutations applied to either side (Set of several fields and id, AddAttr/RemoveField on its type, MarshalResource with relationship data (sorts in place), Filter '=' on the to-many (sorts in place), writing element 0 of the slices obtained from Get for []byte, []string and *[]byte) are explored with deep-snapshot de-duplication; after every mutation everything readable from the OTHER side must be unchanged. Same for Type.Copy under AddAttr/RemoveAttr/AddRel/RemoveRel. Engine A: the derived object right after derivation equals its source (Copy) / is zero-valued (New). Every state is a distinct pair of heaps",
+		Rule: "Engine B: for {soft, wrapped} x {Copy(), New()} (soft also for a type without relationships and a type without attributes) a source resource holding a byte string, a pointer to a byte string, nullable pointers, a time and an unsorted 3-element to-many list and a 1-element to-many list is derived, then ALL histories (depth <= 3 quick / 4 thorough) of 15 mutations applied to either side (Set of several fields and id, AddAttr/RemoveField on its type, MarshalResource with relationship data (sorts in place), Filter '=' on the to-many (sorts in place), writing element 0 of the slices obtained from Get for []byte, []string and *[]byte) are explored with deep-snapshot de-duplication; after every mutation everything readable from the OTHER side must be unchanged. Same for Type.Copy under AddAttr/RemoveAttr/AddRel/RemoveRel. Engine A: the derived object right after derivation equals its source (Copy) / is zero-valued (New). Every state is a distinct pair of heaps",
 		Assumptions: []string{"writing through a nullable pointer obtained from Get (other than the slice behind *[]byte) is not judged: the statement lists slices only"},
 		Harnesses: hs,
 	})
